@@ -492,3 +492,158 @@ class BrokerClientHarness(object):
         ignore = [self.net] + list(self.net.conns) + [self.clock] + list(self.net.attempts)
         calls = [(round(c.getTime() - self.clock.seconds(), 9)) for c in self.clock.pending()]
         return fpmod.fingerprint((self.bc, conns, mon, calls), now=self.clock.seconds(), ignore=ignore)
+
+
+class BootstrapProtocolHarness(object):
+    """The ephemeral bootstrap connection's protocol (KafkaBootstrapProtocol) under the same alphabet: requests
+    with fresh ids, frames for any seen / unknown id in any order, arbitrary chunking, impossible length, loss."""
+
+    def __init__(self, cfg):
+        from afkak._protocol import KafkaBootstrapProtocol
+        from mc.world import Connection
+        self.cfg = cfg
+        self.clock = VClock()
+        self.net = VNet(self.clock)
+        self.conn = Connection(self.net, 0, "kafka1", 9092, "bootstrap")
+        self.net.conns.append(self.conn)
+        self.proto = KafkaBootstrapProtocol()
+        self.conn.proto = self.proto
+        self.proto.makeConnection(self.conn.transport)
+        self.violations = []
+        self._sigs = set()
+        self.reqs = []  # [rid, d, fired, result]
+        self.sent = []  # (frame index, id, bytes)
+        self.consumed = set()
+        self.big_need = None
+        self.delivered = 0
+        self.lost = False
+
+    def viol(self, oracle, sig, msg):
+        if sig not in self._sigs:
+            self._sigs.add(sig)
+            self.violations.append(Violation(oracle, "C06:bootstrap:%s" % sig, msg))
+
+    def enabled(self):
+        en = []
+        if not self.lost:
+            if len(self.reqs) < self.cfg.get("max_reqs", 3):
+                en.append(("req", (0, 0)))
+            if self.conn.client_closing:
+                en.append(("closed", (0, 0)))
+            if self.conn.b2c:
+                n = len(self.conn.b2c)
+                en.append(("deliver:all", (0, 0)))
+                for k in sorted(set(x for x in (1, 3, 4, 6, n - 1) if 0 < x < n)):
+                    en.append(("deliver:%d" % k, (0, 1)))
+            if len(self.sent) < self.cfg.get("max_frames", 4) and not self.conn.client_closing:
+                for r in self.reqs:
+                    en.append(("frame:%d" % r[0], (0, 0)))
+                en.append(("frame:99", (1, 0)))
+                if self.big_need is None:
+                    en.append(("bigframe", (1, 0)))
+            en.append(("drop", (1, 0)))
+        elif len(self.reqs) < self.cfg.get("max_reqs", 3):
+            en.append(("req", (0, 0)))
+        return en
+
+    def apply(self, label):
+        from twisted.internet import error
+        from twisted.python.failure import Failure
+        kind, _, arg = label.partition(":")
+        try:
+            if kind == "req":
+                rid = len(self.reqs) + 1
+                rec = [rid, None, 0, None]
+                self.reqs.append(rec)
+                d = self.proto.request(_req_bytes(rid, False))
+                rec[1] = d
+
+                def fired(res, rec=rec):
+                    rec[2] += 1
+                    rec[3] = res
+                    if rec[2] > 1:
+                        self.viol("exactly-once", "request-fired-twice", "request %d fired twice" % rec[0])
+                    self.judge(rec)
+                    return None
+                d.addBoth(fired)
+                if self.lost and not (rec[2] and isinstance(rec[3], Failure)):
+                    self.viol("completion", "request-after-loss-not-failed",
+                              "request() after connectionLost did not fail at once")
+            elif kind == "frame":
+                j = int(arg)
+                data = _resp_bytes(j)
+                self.sent.append((len(self.sent), j, data))
+                self.conn.b2c += struct.pack(">I", len(data)) + data
+            elif kind == "bigframe":
+                self.big_need = self.delivered + len(self.conn.b2c) + 4
+                self.conn.b2c += struct.pack(">I", BIG) + b"garbage!"
+            elif kind == "deliver":
+                n = len(self.conn.b2c) if arg == "all" else int(arg)
+                self.delivered += n
+                unknown_before = self._unknown_frames_complete()
+                self.conn.deliver(n)
+                if self.big_need and self.delivered >= self.big_need and not self.conn.client_closing:
+                    self.viol("framing", "impossible-length-not-terminated",
+                              "a frame announcing 2^31 bytes was delivered and the connection was not closed")
+                if self._unknown_frames_complete() > unknown_before and not self.conn.client_closing:
+                    self.viol("correlation", "unknown-id-frame-not-rejected",
+                              "a complete frame with an unknown correlation id was delivered and the connection "
+                              "was not dropped")
+            elif kind in ("drop", "closed"):
+                self.lost = True
+                self.conn.close(error.ConnectionLost("lost") if kind == "drop" else error.ConnectionDone("done"))
+                for rec in self.reqs:
+                    if not rec[2]:
+                        self.viol("completion", "request-pending-after-connection-lost",
+                                  "request %d still pending after connectionLost" % rec[0])
+        except Exception as e:
+            import traceback
+            self.viol("reactor-callback", "exception-escapes-callback:%s:%s" % (kind, type(e).__name__),
+                      "event %s: %r\n%s" % (label, e, traceback.format_exc()[-800:]))
+
+    def _unknown_frames_complete(self):
+        """Number of unknown-id frames completely delivered so far."""
+        pos = 0
+        n = 0
+        for (_k, j, data) in self.sent:
+            end = pos + 4 + len(data)
+            if self.big_need is not None and end > self.big_need - 4:
+                break
+            if end <= self.delivered and j == 99:
+                n += 1
+            pos = end
+        return n
+
+    def judge(self, rec):
+        from twisted.python.failure import Failure
+        res = rec[3]
+        if isinstance(res, Failure):
+            if not (self.lost or self.conn.client_closing):
+                self.viol("completion", "request-fails-on-live-connection",
+                          "request %d failed with %r while the connection is up" % (rec[0], res.value))
+            return
+        ok = False
+        for (k, j, data) in self.sent:
+            if j == rec[0] and data == res and k not in self.consumed:
+                self.consumed.add(k)
+                ok = True
+                break
+        if not ok:
+            self.viol("correlation", "response-not-own-frame",
+                      "request %d completed with %r; frames sent %r" % (rec[0], res, [(k, j) for k, j, _d in
+                                                                                        self.sent]))
+
+    def finish(self, horizon):
+        pass
+
+    def outcome(self):
+        return tuple((r[0], r[2], type(getattr(r[3], "value", r[3])).__name__) for r in self.reqs) + (self.lost,)
+
+    def nontrivial(self):
+        return self.lost or self.big_need is not None or any(j == 99 for _k, j, _d in self.sent)
+
+    def fingerprint(self):
+        mon = ([(r[0], r[2], type(getattr(r[3], "value", r[3])).__name__) for r in self.reqs],
+               [(j) for _k, j, _d in self.sent], sorted(self.consumed), self.big_need, self.delivered, self.lost,
+               bytes(self.conn.b2c), self.conn.client_closing, sorted(self._sigs))
+        return fpmod.fingerprint((self.proto, mon), now=0.0, ignore=[self.net, self.conn, self.clock])
